@@ -55,7 +55,8 @@ def gen_cases(tier: str, seed: int):
         cfg = {"n_chain": n_chain, "n_warm": n_warm, "n_main": int(COUNTS[int(rng.integers(0, 5))]),
                "adapters": adapters if n_warm > 0 or rng.integers(0, 2) else [], "stager": stager if adapters else None,
                "seed": int(rng.integers(0, 10**6)), "model_seed": int(rng.integers(0, 100)), "dim": int(rng.integers(1, 4)),
-               "trace": [[], ["pos"], ["pos", "scalars"], ["energy", "int_vec"], ["odd_keys", "pos"], "default"][int(rng.integers(0, 6))],
+               "trace": [[], ["pos"], ["pos", "scalars"], ["energy", "int_vec"], ["odd_keys", "pos"], "default", ["pos", "pos_twice"],
+                         ["pos_twice", "pos"]][int(rng.integers(0, 8))],
                "display_progress": bool(i % 7 == 3),
                "trace_warm_up": bool(rng.integers(0, 2)), "transition": ["static", "random", "multinomial", "slice"][i % 4],
                "init": ["state", "dict", "array", "state_nomom"][int(rng.integers(0, 4))],
@@ -171,8 +172,11 @@ def check_run(obs, res, cfg, label):  # noqa: C901, PLR0912
         for r, it in enumerate(rows):
             rec = per[c][it]
             obs.count("rows_compared")
-            for tf in tfs or []:
-                for key, val in tf.apply_logged(rec).items():
+            expected_row = {}
+            for tf in tfs or []:  # documented: for a key returned by several trace functions the last one wins
+                expected_row.update(tf.apply_logged(rec))
+            for _once in (1,):
+                for key, val in expected_row.items():
                     got = traces[key][c][r]
                     if not _same(got, val):
                         obs.violation(f"trace-row-mismatch:{label}",
